@@ -1,17 +1,21 @@
 // factgen/cni: regenerates lean/Galaxy/Generated/Cni.lean from the CURRENT text of
 //
-//	pkg/api/cniutil/cni.go   (BuildCNIArgs, ParseCNIArgs, CmdAdd, CmdDel, consumeNetworkInfo)
+//	pkg/api/cniutil/cni.go   (BuildCNIArgs, ParseCNIArgs, CmdAdd, CmdDel, consumeNetworkInfo, reverse)
 //	pkg/galaxy/server.go     (getNetworkConf, resolveNetworks, setNetInterface)
 //	pkg/api/k8s/k8s.go       (ParsePodNetworkAnnotation, parsePodNetworkObjectName)
 //
-// Purely syntactic (go/ast).  Every extraction fails loudly when the source no longer has a shape it knows.
+// Shapes are recognised semantically: each function is normalised (norm.go; /verif/harmless/NORMALISE.md) and
+// unified with reference templates (templates.go) that went through the same normalisation; the holes of the
+// matching template give the constants, the variant that matched gives the structural facts.  A function that
+// matches no variant makes the translator fail loudly with the first point of divergence.
 package main
 
 import (
 	"fmt"
 	"go/ast"
+	"go/parser"
 	"go/token"
-	"strconv"
+	"sort"
 	"strings"
 
 	"factgen/fg"
@@ -52,32 +56,12 @@ func leanChars(s string) string {
 	return "[" + strings.Join(xs, ", ") + "]"
 }
 
-func strLit(e ast.Expr) (string, bool) {
-	bl, ok := e.(*ast.BasicLit)
-	if !ok || bl.Kind != token.STRING {
-		return "", false
+func leanInt(i int64) string {
+	if i < 0 {
+		return fmt.Sprintf("(%d)", i)
 	}
-	s, err := strconv.Unquote(bl.Value)
-	return s, err == nil
+	return fmt.Sprint(i)
 }
-
-// calls returns every call expression below n whose printed callee equals name.
-func calls(p *fg.Parsed, n ast.Node, name string) []*ast.CallExpr {
-	var r []*ast.CallExpr
-	ast.Inspect(n, func(x ast.Node) bool {
-		if c, ok := x.(*ast.CallExpr); ok && p.Src(c.Fun) == name {
-			r = append(r, c)
-		}
-		return true
-	})
-	return r
-}
-
-// norm collapses every whitespace run to one blank (printed sub-trees differ in indentation).
-func norm(s string) string { return strings.Join(strings.Fields(s), " ") }
-
-// has reports whether the printed node contains the fragment, ignoring layout.
-func has(p *fg.Parsed, n ast.Node, frag string) bool { return strings.Contains(norm(p.Src(n)), norm(frag)) }
 
 func oneChar(s, what string) (rune, error) {
 	rs := []rune(s)
@@ -87,12 +71,50 @@ func oneChar(s, what string) (rune, error) {
 	return rs[0], nil
 }
 
-// sepOfFormat: "%s<c>%s" -> c
-func sepOfFormat(f, what string) (rune, error) {
-	if !strings.HasPrefix(f, "%s") || !strings.HasSuffix(f, "%s") || len(f) < 5 {
-		return 0, fmt.Errorf("%s: format %q is not %%s<sep>%%s", what, f)
+// parseTemplate parses template source and returns the canonical tree of its function `name`.
+func parseTemplate(src, recv, name string) (*N, error) {
+	fset := token.NewFileSet()
+	f, err := parser.ParseFile(fset, "template.go", src, 0)
+	if err != nil {
+		return nil, fmt.Errorf("template %s: %v", name, err)
 	}
-	return oneChar(f[2:len(f)-2], what)
+	p := &fg.Parsed{Fset: fset, File: f, Path: "template:" + name}
+	fd, err := p.Fn(recv, name)
+	if err != nil {
+		return nil, err
+	}
+	return NewNorm(p).Func(fd), nil
+}
+
+// canonical tree of a function of the source
+func sourceFunc(p *fg.Parsed, recv, name string) (*N, error) {
+	fd, err := p.Fn(recv, name)
+	if err != nil {
+		return nil, err
+	}
+	return NewNorm(p).Func(fd), nil
+}
+
+// match tries the variants in order; returns the matching variant and its bindings.
+func match(p *fg.Parsed, recv, name string, vs []variant) (*variant, map[string]string, error) {
+	src, err := sourceFunc(p, recv, name)
+	if err != nil {
+		return nil, nil, err
+	}
+	var msgs []string
+	for i := range vs {
+		t, err := parseTemplate(vs[i].src, recv, name)
+		if err != nil {
+			return nil, nil, err
+		}
+		bind := map[string]string{}
+		if err := unify(t, src, bind, name); err == nil {
+			return &vs[i], bind, nil
+		} else {
+			msgs = append(msgs, fmt.Sprintf("  not the %q shape: %v", vs[i].name, err))
+		}
+	}
+	return nil, nil, fmt.Errorf("%s: %s has none of the known shapes (after normalisation)\n%s", p.Path, name, strings.Join(msgs, "\n"))
 }
 
 func gen(repo string) (map[string]string, error) {
@@ -114,7 +136,7 @@ func gen(repo string) (map[string]string, error) {
 	o.b.WriteString("namespace Galaxy.Generated.Cni\n\n")
 
 	steps := []func(*out, *fg.Parsed, *fg.Parsed, *fg.Parsed) error{
-		genBuildArgs, genParseArgs, genAccum, genCmdAdd, genCmdDel, genGetNetworkConf, genSetNetInterface,
+		genBuildArgs, genParseArgs, genCmdAdd, genCmdDel, genGetNetworkConf, genSetNetInterface,
 		genAnnotation, genSelection,
 	}
 	for _, s := range steps {
@@ -126,341 +148,125 @@ func gen(repo string) (map[string]string, error) {
 	return map[string]string{"Cni.lean": o.b.String()}, nil
 }
 
-// ---- BuildCNIArgs: Sprintf("%s=%s", k, v) inside a range over the map, Join(entries, ";")
+func charOf(bind map[string]string, key, what string) (rune, error) {
+	return oneChar(bind[key], what)
+}
+
+// ---- BuildCNIArgs
 func genBuildArgs(o *out, cni, _, _ *fg.Parsed) error {
-	fd, err := cni.Fn("", "BuildCNIArgs")
+	_, b, err := match(cni, "", "BuildCNIArgs", []variant{{name: "join of key<kv>value entries", src: tBuildCNIArgs}})
 	if err != nil {
 		return err
 	}
-	sp := calls(cni, fd.Body, "fmt.Sprintf")
-	jn := calls(cni, fd.Body, "strings.Join")
-	if len(sp) != 1 || len(jn) != 1 || len(sp[0].Args) != 3 || len(jn[0].Args) != 2 {
-		return fmt.Errorf("BuildCNIArgs: expected one fmt.Sprintf(fmt,k,v) and one strings.Join(entries,sep)")
-	}
-	f, ok := strLit(sp[0].Args[0])
-	if !ok {
-		return fmt.Errorf("BuildCNIArgs: Sprintf format is not a literal")
-	}
-	kv, err := sepOfFormat(f, "BuildCNIArgs entry format")
+	kv, err := charOf(b, "KV", "BuildCNIArgs key/value separator")
 	if err != nil {
 		return err
 	}
-	// the two operands must be the range key and value, in this order
-	var rng *ast.RangeStmt
-	ast.Inspect(fd.Body, func(x ast.Node) bool {
-		if r, ok := x.(*ast.RangeStmt); ok && rng == nil {
-			rng = r
-		}
-		return true
-	})
-	if rng == nil || rng.Key == nil || rng.Value == nil ||
-		cni.Src(sp[0].Args[1]) != cni.Src(rng.Key) || cni.Src(sp[0].Args[2]) != cni.Src(rng.Value) {
-		return fmt.Errorf("BuildCNIArgs: entry is not Sprintf(fmt, <range key>, <range value>)")
-	}
-	s, ok := strLit(jn[0].Args[1])
-	if !ok {
-		return fmt.Errorf("BuildCNIArgs: Join separator is not a literal")
-	}
-	as, err := oneChar(s, "BuildCNIArgs join separator")
+	sep, err := charOf(b, "SEP", "BuildCNIArgs join separator")
 	if err != nil {
 		return err
 	}
 	o.def("buildKvSep", "Char", leanChar(kv), "BuildCNIArgs: entry = key ++ this ++ value")
-	o.def("buildArgSep", "Char", leanChar(as), "BuildCNIArgs: entries joined by this")
+	o.def("buildArgSep", "Char", leanChar(sep), "BuildCNIArgs: entries joined by this")
 	return nil
 }
 
-// ---- ParseCNIArgs: Split(args, ";"), SplitN(kv, "=", 2), len(part) != 2 -> continue, TrimSpace both, map assignment
+// ---- ParseCNIArgs
 func genParseArgs(o *out, cni, _, _ *fg.Parsed) error {
-	fd, err := cni.Fn("", "ParseCNIArgs")
+	_, b, err := match(cni, "", "ParseCNIArgs", []variant{{name: "split, splitN 2, skip, trim, last wins", src: tParseCNIArgs}})
 	if err != nil {
 		return err
 	}
-	sp := calls(cni, fd.Body, "strings.Split")
-	sn := calls(cni, fd.Body, "strings.SplitN")
-	if len(sp) != 1 || len(sn) != 1 || len(sp[0].Args) != 2 || len(sn[0].Args) != 3 {
-		return fmt.Errorf("ParseCNIArgs: expected one strings.Split and one strings.SplitN")
-	}
-	a, ok1 := strLit(sp[0].Args[1])
-	k, ok2 := strLit(sn[0].Args[1])
-	lim, ok3 := sn[0].Args[2].(*ast.BasicLit)
-	if !ok1 || !ok2 || !ok3 {
-		return fmt.Errorf("ParseCNIArgs: separators are not literals")
-	}
-	ac, err := oneChar(a, "ParseCNIArgs Split separator")
+	ac, err := charOf(b, "PSEP", "ParseCNIArgs Split separator")
 	if err != nil {
 		return err
 	}
-	kc, err := oneChar(k, "ParseCNIArgs SplitN separator")
+	kc, err := charOf(b, "PKV", "ParseCNIArgs SplitN separator")
 	if err != nil {
 		return err
-	}
-	skip := has(cni, fd.Body, "if len(part) != "+lim.Value+" { continue }")
-	trims := has(cni, fd.Body, "kvMap[strings.TrimSpace(part[0])] = strings.TrimSpace(part[1])")
-	if !skip || !trims {
-		return fmt.Errorf("ParseCNIArgs: loop body is not `if len(part) != N {continue}; kvMap[TrimSpace(part[0])] = TrimSpace(part[1])`")
 	}
 	o.def("parseArgSep", "Char", leanChar(ac), "ParseCNIArgs: strings.Split separator")
 	o.def("parseKvSep", "Char", leanChar(kc), "ParseCNIArgs: strings.SplitN separator")
-	o.def("parseKvLimit", "Nat", lim.Value, "ParseCNIArgs: SplitN limit (entries without the separator are skipped)")
+	o.def("parseKvLimit", "Nat", "2", "ParseCNIArgs: SplitN limit (entries without the separator are skipped)")
 	o.def("parseTrimsAndLastWins", "Bool", "true",
 		"ParseCNIArgs: kvMap[TrimSpace(part[0])] = TrimSpace(part[1]) in input order (a later entry overwrites)")
 	return nil
 }
 
-// ---- the accumulation statement of CmdAdd and CmdDel:
-// cmdArgs.Args = strings.TrimRight(fmt.Sprintf("%s;%s", cmdArgs.Args, BuildCNIArgs(networkInfo.Args)), ";")
-func accumOf(cni *fg.Parsed, fd *ast.FuncDecl) (sep rune, cut string, err error) {
-	var found *ast.AssignStmt
-	ast.Inspect(fd.Body, func(x ast.Node) bool {
-		if a, ok := x.(*ast.AssignStmt); ok && len(a.Lhs) == 1 && cni.Src(a.Lhs[0]) == "cmdArgs.Args" {
-			if found != nil {
-				err = fmt.Errorf("%s: cmdArgs.Args assigned more than once", fd.Name.Name)
-			}
-			found = a
-		}
-		return true
-	})
-	if err != nil {
-		return
-	}
-	if found == nil || len(found.Rhs) != 1 {
-		return 0, "", fmt.Errorf("%s: no assignment to cmdArgs.Args", fd.Name.Name)
-	}
-	tr, ok := found.Rhs[0].(*ast.CallExpr)
-	if !ok || cni.Src(tr.Fun) != "strings.TrimRight" || len(tr.Args) != 2 {
-		return 0, "", fmt.Errorf("%s: cmdArgs.Args is not assigned strings.TrimRight(...)", fd.Name.Name)
-	}
-	sp, ok := tr.Args[0].(*ast.CallExpr)
-	if !ok || cni.Src(sp.Fun) != "fmt.Sprintf" || len(sp.Args) != 3 ||
-		cni.Src(sp.Args[1]) != "cmdArgs.Args" || cni.Src(sp.Args[2]) != "BuildCNIArgs(networkInfo.Args)" {
-		return 0, "", fmt.Errorf("%s: accumulated value is not Sprintf(fmt, cmdArgs.Args, BuildCNIArgs(networkInfo.Args))", fd.Name.Name)
-	}
-	f, ok1 := strLit(sp.Args[0])
-	c, ok2 := strLit(tr.Args[1])
-	if !ok1 || !ok2 {
-		return 0, "", fmt.Errorf("%s: accumulation format / cutset not literal", fd.Name.Name)
-	}
-	sep, err = sepOfFormat(f, fd.Name.Name+" accumulation format")
-	return sep, c, err
-}
-
-func genAccum(o *out, cni, _, _ *fg.Parsed) error {
-	for _, fn := range []string{"CmdAdd", "CmdDel"} {
-		fd, err := cni.Fn("", fn)
-		if err != nil {
-			return err
-		}
-		sep, cut, err := accumOf(cni, fd)
-		if err != nil {
-			return err
-		}
-		suffix := strings.TrimPrefix(fn, "Cmd")
-		o.def("accumSep"+suffix, "Char", leanChar(sep), fn+": cmdArgs.Args = TrimRight(Sprintf(\"%s<this>%s\", cmdArgs.Args, BuildCNIArgs(info.Args)), cutset)")
-		o.def("accumCut"+suffix, "List Char", leanChars(cut), fn+": the TrimRight cutset")
-	}
-	return nil
-}
-
-// ---- CmdAdd: save before the delegate loop; rollback CmdDel(cmdArgs, idx [+-n]); prevResult written only when result != nil
-func genCmdAdd(o *out, cni, _, _ *fg.Parsed) error {
-	fd, err := cni.Fn("", "CmdAdd")
+func emitAccum(o *out, fn string, b map[string]string) error {
+	sep, err := charOf(b, "ACCSEP", fn+" accumulation separator")
 	if err != nil {
 		return err
 	}
-	iEmpty := cni.StmtIndex(fd.Body, "len(networkInfos) == 0")
-	iSave := cni.StmtIndex(fd.Body, "saveNetworkInfo(cmdArgs.ContainerID, networkInfos)")
-	iLoop := -1
-	var loop *ast.RangeStmt
-	for i, s := range fd.Body.List {
-		if r, ok := s.(*ast.RangeStmt); ok && cni.ContainsCall(r, "DelegateAdd") {
-			iLoop, loop = i, r
-		}
-	}
-	if loop == nil {
-		return fmt.Errorf("CmdAdd: no top-level range loop calling DelegateAdd")
-	}
-	if cni.Src(loop.X) != "networkInfos" || loop.Key == nil {
-		return fmt.Errorf("CmdAdd: the delegate loop does not range over networkInfos with an index")
-	}
-	idx := cni.Src(loop.Key)
-	saveFirst := iSave >= 0 && iSave < iLoop
-	if saveFirst {
-		// the save's failure must abort the ADD
-		is, ok := fd.Body.List[iSave].(*ast.IfStmt)
-		saveFirst = ok && strings.Contains(cni.Src(is.Body), "return nil,")
-	}
-	o.def("cmdAddRejectsEmpty", "Bool", fg.LeanBool(iEmpty >= 0 && iEmpty < iLoop && (iSave < 0 || iEmpty < iSave)),
-		"CmdAdd: an empty network list is an error before anything is saved or invoked")
-	o.def("cmdAddSavesBeforeInvoke", "Bool", fg.LeanBool(saveFirst),
-		"CmdAdd: saveNetworkInfo(all infos) precedes the delegate loop and its failure aborts")
-	// order inside the loop: accumulate args; prevResult; DelegateAdd; on error CmdDel(cmdArgs, idx) and return error
-	body := loop.Body
-	iAcc := cni.StmtIndex(body, "cmdArgs.Args =")
-	iPrev := cni.StmtIndex(body, `networkInfo.Conf["prevResult"] = result`)
-	iAdd := cni.StmtIndex(body, "DelegateAdd(networkInfo.Conf, cmdArgs, networkInfo.IfName)")
-	iErr := -1
-	var errIf *ast.IfStmt
-	for i, s := range body.List {
-		if is, ok := s.(*ast.IfStmt); ok && cni.Src(is.Cond) == "err != nil" && i > iAdd {
-			iErr, errIf = i, is
-			break
-		}
-	}
-	if iAcc < 0 || iPrev < 0 || iAdd < 0 || errIf == nil || !(iAcc < iAdd && iPrev < iAdd && iAdd < iErr) {
-		return fmt.Errorf("CmdAdd: loop body is not [accumulate args; set prevResult; DelegateAdd; if err != nil {rollback}]")
-	}
-	pIf, ok := body.List[iPrev].(*ast.IfStmt)
-	if !ok || cni.Src(pIf.Cond) != "result != nil" {
-		return fmt.Errorf("CmdAdd: prevResult is not guarded by `result != nil`")
-	}
-	o.def("cmdAddChainsPrevResult", "Bool", "true",
-		"CmdAdd: conf[\"prevResult\"] := result of the previous delegate (only when there is one), before DelegateAdd")
-	dels := calls(cni, errIf.Body, "CmdDel")
-	if len(dels) != 1 || len(dels[0].Args) != 2 || cni.Src(dels[0].Args[0]) != "cmdArgs" {
-		return fmt.Errorf("CmdAdd: the failure branch does not call CmdDel(cmdArgs, <index>) exactly once")
-	}
-	off, err := offsetOf(cni, dels[0].Args[1], idx)
-	if err != nil {
-		return fmt.Errorf("CmdAdd rollback: %v", err)
-	}
-	retErr := false
-	for _, s := range errIf.Body.List {
-		if r, ok := s.(*ast.ReturnStmt); ok && len(r.Results) == 2 && cni.Src(r.Results[0]) == "nil" &&
-			strings.HasPrefix(cni.Src(r.Results[1]), "fmt.Errorf(") {
-			retErr = true
-		}
-	}
-	o.def("rollbackOffset", "Int", leanInt(off),
-		"CmdAdd: on failure of delegate idx the rollback is CmdDel(cmdArgs, idx + this), i.e. DEL from idx+this down to 0")
-	o.def("cmdAddFailsAfterRollback", "Bool", fg.LeanBool(retErr), "CmdAdd: the failure branch returns an error")
+	suffix := strings.TrimPrefix(fn, "Cmd")
+	o.def("accumSep"+suffix, "Char", leanChar(sep), fn+": cmdArgs.Args = TrimRight(cmdArgs.Args ++ <this> ++ BuildCNIArgs(info.Args), cutset)")
+	o.def("accumCut"+suffix, "List Char", leanChars(b["ACCCUT"]), fn+": the TrimRight cutset")
 	return nil
 }
 
-func leanInt(i int64) string {
-	if i < 0 {
-		return fmt.Sprintf("(%d)", i)
-	}
-	return fmt.Sprint(i)
-}
-
-// offsetOf: e is `v`, `v + n` or `v - n`.
-func offsetOf(p *fg.Parsed, e ast.Expr, v string) (int64, error) {
-	if p.Src(e) == v {
-		return 0, nil
-	}
-	if b, ok := e.(*ast.BinaryExpr); ok && p.Src(b.X) == v {
-		if lit, ok := b.Y.(*ast.BasicLit); ok && lit.Kind == token.INT {
-			n, _ := strconv.ParseInt(lit.Value, 0, 64)
-			switch b.Op {
-			case token.ADD:
-				return n, nil
-			case token.SUB:
-				return -n, nil
-			}
+// ---- CmdAdd: reject empty; save before the delegate loop; accumulate; prevResult only from a previous result;
+// DelegateAdd; on failure CmdDel(cmdArgs, idx+off) and an error
+func genCmdAdd(o *out, cni, _, _ *fg.Parsed) error {
+	var vs []variant
+	for _, off := range []int{0, -1, 1, -2, 2} {
+		e := "idx"
+		if off < 0 {
+			e = fmt.Sprintf("idx-%d", -off)
+		} else if off > 0 {
+			e = fmt.Sprintf("idx+%d", off)
 		}
+		vs = append(vs, variant{name: "rollback CmdDel(cmdArgs, " + e + ")", src: strings.ReplaceAll(tCmdAdd, "%ROLLBACK%", e),
+			facts: map[string]string{"off": fmt.Sprint(off)}})
 	}
-	return 0, fmt.Errorf("index expression %q is not %s, %s+n or %s-n", p.Src(e), v, v, v)
+	v, b, err := match(cni, "", "CmdAdd", vs)
+	if err != nil {
+		return err
+	}
+	if err := emitAccum(o, "CmdAdd", b); err != nil {
+		return err
+	}
+	var off int64
+	fmt.Sscan(v.facts["off"], &off)
+	o.def("cmdAddRejectsEmpty", "Bool", "true", "CmdAdd: an empty network list is an error before anything is saved or invoked")
+	o.def("cmdAddSavesBeforeInvoke", "Bool", "true", "CmdAdd: saveNetworkInfo(all infos) precedes the delegate loop and its failure aborts")
+	o.def("cmdAddChainsPrevResult", "Bool", "true",
+		"CmdAdd: conf[\"prevResult\"] := result of the previous delegate (only when there is one), before DelegateAdd")
+	o.def("rollbackOffset", "Int", leanInt(off),
+		"CmdAdd: on failure of delegate idx the rollback is CmdDel(cmdArgs, idx + this), i.e. DEL from idx+this down to 0")
+	o.def("cmdAddFailsAfterRollback", "Bool", "true", "CmdAdd: the failure branch returns an error")
+	return nil
 }
 
 // ---- CmdDel
 func genCmdDel(o *out, cni, _, _ *fg.Parsed) error {
-	fd, err := cni.Fn("", "CmdDel")
+	mk := func(loop, rev, saved string) string {
+		s := strings.ReplaceAll(tCmdDel, "%LOOP%", loop)
+		s = strings.ReplaceAll(s, "%REVERSE%", rev)
+		return strings.ReplaceAll(s, "%SAVED%", saved)
+	}
+	const down, up = "for idx := lastIdx; idx >= 0; idx--", "for idx := 0; idx <= lastIdx; idx++"
+	vs := []variant{
+		{"downward walk, failures reversed and re-saved", mk(down, "reverse(fails)", "fails"), map[string]string{"down": "true", "resave": "true"}},
+		{"upward walk, failures re-saved", mk(up, "", "fails"), map[string]string{"down": "false", "resave": "true"}},
+		{"downward walk, failures re-saved in visiting order", mk(down, "", "fails"), map[string]string{"down": "true", "resave": "false"}},
+		{"downward walk, everything re-saved", mk(down, "reverse(fails)", "networkInfos"), map[string]string{"down": "true", "resave": "false"}},
+		{"upward walk, everything re-saved", mk(up, "", "networkInfos"), map[string]string{"down": "false", "resave": "false"}},
+	}
+	v, b, err := match(cni, "", "CmdDel", vs)
 	if err != nil {
 		return err
 	}
-	if len(fd.Body.List) < 3 || !strings.HasPrefix(cni.Src(fd.Body.List[0]), "networkInfos, err := consumeNetworkInfo(cmdArgs.ContainerID)") {
-		return fmt.Errorf("CmdDel: does not start with networkInfos, err := consumeNetworkInfo(cmdArgs.ContainerID)")
+	if err := emitAccum(o, "CmdDel", b); err != nil {
+		return err
 	}
-	// missing state => success, nothing invoked
-	e0, ok := fd.Body.List[1].(*ast.IfStmt)
-	missingOK := false
-	if ok && cni.Src(e0.Cond) == "err != nil" && len(e0.Body.List) > 0 {
-		if in, ok := e0.Body.List[0].(*ast.IfStmt); ok && cni.Src(in.Cond) == "os.IsNotExist(err)" {
-			for _, s := range in.Body.List {
-				if r, ok := s.(*ast.ReturnStmt); ok && len(r.Results) == 1 && cni.Src(r.Results[0]) == "nil" {
-					missingOK = true
-				}
-			}
-		}
-	}
-	o.def("cmdDelMissingStateIsSuccess", "Bool", fg.LeanBool(missingOK),
-		"CmdDel: a missing state file returns nil before any delegate is invoked")
-	allDefault := has(cni, fd.Body, "if lastIdx == -1 { lastIdx = len(networkInfos) - 1 }")
-	o.def("cmdDelMinusOneMeansAll", "Bool", fg.LeanBool(allDefault), "CmdDel: lastIdx = -1 stands for the last saved network")
 	// consume = read + remove
-	cfd, err := cni.Fn("", "consumeNetworkInfo")
-	if err != nil {
+	if _, _, err := match(cni, "", "consumeNetworkInfo", []variant{{name: "read, unmarshal, deferred remove", src: tConsume}}); err != nil {
 		return err
 	}
-	removes := false
-	for _, s := range cfd.Body.List {
-		if d, ok := s.(*ast.DeferStmt); ok && cni.Src(d.Call) == "os.Remove(path)" {
-			removes = true
-		}
-	}
-	// loop shape
-	var loop *ast.ForStmt
-	iLoop := -1
-	for i, s := range fd.Body.List {
-		if f, ok := s.(*ast.ForStmt); ok && cni.ContainsCall(f, "DelegateDel") {
-			loop, iLoop = f, i
-		}
-	}
-	if loop == nil || loop.Init == nil || loop.Cond == nil || loop.Post == nil {
-		return fmt.Errorf("CmdDel: no three-clause for loop calling DelegateDel")
-	}
-	down := cni.Src(loop.Init) == "idx := lastIdx" && cni.Src(loop.Cond) == "idx >= 0" && cni.Src(loop.Post) == "idx--"
-	up := cni.Src(loop.Init) == "idx := 0" && (cni.Src(loop.Cond) == "idx <= lastIdx") && cni.Src(loop.Post) == "idx++"
-	if !down && !up {
-		return fmt.Errorf("CmdDel: loop header `for %s; %s; %s` is neither the downward nor the upward walk over 0..lastIdx",
-			cni.Src(loop.Init), cni.Src(loop.Cond), cni.Src(loop.Post))
-	}
-	if cni.StmtIndex(loop.Body, "networkInfo := networkInfos[idx]") != 0 ||
-		cni.StmtIndex(loop.Body, "DelegateDel(networkInfo.Conf, cmdArgs, networkInfo.IfName)") < 0 {
-		return fmt.Errorf("CmdDel: loop body does not delete networkInfos[idx]")
-	}
-	o.def("cmdDelIteratesDownward", "Bool", fg.LeanBool(down), "CmdDel: `for idx := lastIdx; idx >= 0; idx--`")
-	// failures: appended only in the error branch, every failure appended, loop continues
-	appends := 0
-	inErr := false
-	ast.Inspect(fd.Body, func(x ast.Node) bool {
-		if a, ok := x.(*ast.AssignStmt); ok && len(a.Lhs) == 1 && cni.Src(a.Lhs[0]) == "fails" {
-			appends++
-			if cni.Src(a.Rhs[0]) != "append(fails, networkInfo)" {
-				appends += 100
-			}
-		}
-		return true
-	})
-	for _, s := range loop.Body.List {
-		if is, ok := s.(*ast.IfStmt); ok && cni.Src(is.Cond) == "err != nil" &&
-			strings.Contains(cni.Src(is.Body), "fails = append(fails, networkInfo)") &&
-			!strings.Contains(cni.Src(is.Body), "break") && !strings.Contains(cni.Src(is.Body), "return") {
-			inErr = true
-		}
-	}
-	// after the loop: if len(errorSet) > 0 { reverse(fails); saveNetworkInfo(cid, fails); return error }
-	resave := false
-	for _, s := range fd.Body.List[iLoop+1:] {
-		is, ok := s.(*ast.IfStmt)
-		if !ok || cni.Src(is.Cond) != "len(errorSet) > 0" {
-			continue
-		}
-		iRev := cni.StmtIndex(is.Body, "reverse(fails)")
-		iSv := cni.StmtIndex(is.Body, "saveNetworkInfo(cmdArgs.ContainerID, fails)")
-		iRet := cni.StmtIndex(is.Body, "return fmt.Errorf(")
-		want := iSv >= 0 && iSv < iRet
-		if down {
-			want = want && iRev >= 0 && iRev < iSv
-		} else {
-			want = want && iRev < 0
-		}
-		resave = want
-	}
-	errSetTracksFails := has(cni, loop.Body, "errorSet = append(errorSet, err.Error()) fails = append(fails, networkInfo)")
-	o.def("cmdDelConsumesThenResavesFailures", "Bool",
-		fg.LeanBool(removes && appends == 1 && inErr && resave && errSetTracksFails),
+	o.def("cmdDelMissingStateIsSuccess", "Bool", "true", "CmdDel: a missing state file returns nil before any delegate is invoked")
+	o.def("cmdDelMinusOneMeansAll", "Bool", "true", "CmdDel: lastIdx = -1 stands for the last saved network")
+	o.def("cmdDelIteratesDownward", "Bool", v.facts["down"], "CmdDel: walks lastIdx … 0 downwards")
+	o.def("cmdDelConsumesThenResavesFailures", "Bool", v.facts["resave"],
 		"CmdDel: the state file is removed when read; exactly the infos whose DelegateDel failed are appended to `fails`, "+
 			"`fails` is put back into original order and saved, and the DEL returns an error iff there was a failure")
 	return nil
@@ -468,250 +274,170 @@ func genCmdDel(o *out, cni, _, _ *fg.Parsed) error {
 
 // ---- getNetworkConf: copy-on-hand-out
 func genGetNetworkConf(o *out, _, srv, _ *fg.Parsed) error {
-	fd, err := srv.Fn("Galaxy", "getNetworkConf")
+	vs := []variant{
+		{"fresh map filled by a range copy", strings.ReplaceAll(tGetNetworkConf, "%HANDOUT%", handoutCopy), map[string]string{"copy": "true"}},
+		{"the configured map itself", strings.ReplaceAll(tGetNetworkConf, "%HANDOUT%", handoutShared), map[string]string{"copy": "false"}},
+	}
+	v, _, err := match(srv, "Galaxy", "getNetworkConf", vs)
 	if err != nil {
 		return err
 	}
-	if len(fd.Body.List) == 0 {
-		return fmt.Errorf("getNetworkConf: empty body")
-	}
-	is, ok := fd.Body.List[0].(*ast.IfStmt)
-	if !ok || is.Init == nil || srv.Src(is.Init) != "netConf, ok := g.netConf[networkName]" || srv.Src(is.Cond) != "ok" {
-		return fmt.Errorf("getNetworkConf: does not start with `if netConf, ok := g.netConf[networkName]; ok {`")
-	}
-	var ret *ast.ReturnStmt
-	for _, s := range is.Body.List {
-		if r, ok := s.(*ast.ReturnStmt); ok {
-			ret = r
-		}
-	}
-	if ret == nil || len(ret.Results) != 2 {
-		return fmt.Errorf("getNetworkConf: configured branch has no two-value return")
-	}
-	rv := srv.Src(ret.Results[0])
-	var copyFact bool
-	switch {
-	case rv == "netConf" || rv == "g.netConf[networkName]":
-		copyFact = false
-	default:
-		// rv must be a local made in this block and filled by `for k, v := range netConf { rv[k] = v }`
-		made, filled := false, false
-		for _, s := range is.Body.List {
-			if a, ok := s.(*ast.AssignStmt); ok && a.Tok == token.DEFINE && len(a.Lhs) == 1 && srv.Src(a.Lhs[0]) == rv {
-				r := srv.Src(a.Rhs[0])
-				if strings.HasPrefix(r, "make(map[string]interface{}") || strings.HasPrefix(r, "map[string]interface{}{") {
-					made = true
-				}
-			}
-			if r, ok := s.(*ast.RangeStmt); ok && srv.Src(r.X) == "netConf" && r.Key != nil && r.Value != nil &&
-				len(r.Body.List) == 1 && srv.Src(r.Body.List[0]) == fmt.Sprintf("%s[%s] = %s", rv, srv.Src(r.Key), srv.Src(r.Value)) {
-				filled = true
-			}
-		}
-		if !made || !filled {
-			return fmt.Errorf("getNetworkConf: returns %q, which is neither the configured map nor a fresh map filled by a range copy", rv)
-		}
-		copyFact = true
-	}
-	o.def("getNetworkConfReturnsCopy", "Bool", fg.LeanBool(copyFact),
+	o.def("getNetworkConfReturnsCopy", "Bool", v.facts["copy"],
 		"getNetworkConf: the configured branch returns a freshly made map filled from g.netConf[name], not the shared map itself")
-	// nobody else may write into a conf map: the only map-index assignment on a `.Conf[...]` is CmdAdd's prevResult
 	return nil
 }
 
-// ---- setNetInterface → Lean function
+// ---- setNetInterface → Lean function, from the canonical tree:
+// (block (if C (block (return E)) (block …)))  with conditions on the parameters only
 func genSetNetInterface(o *out, _, srv, _ *fg.Parsed) error {
-	fd, err := srv.Fn("", "setNetInterface")
+	t, err := sourceFunc(srv, "", "setNetInterface")
 	if err != nil {
 		return err
 	}
-	var names []string
-	for _, f := range fd.Type.Params.List {
-		for _, n := range f.Names {
-			names = append(names, n.Name+":"+srv.Src(f.Type))
-		}
+	params := t.K[1]
+	var types []string
+	for _, p := range params.K {
+		types = append(types, strings.TrimPrefix(p.K[1].Op, "type:"))
 	}
-	if strings.Join(names, ",") != "netIf:string,idx:int,argIf:string" {
-		return fmt.Errorf("setNetInterface: parameters are %v, expected (netIf string, idx int, argIf string)", names)
+	if strings.Join(types, ",") != "string,int,string" {
+		return fmt.Errorf("setNetInterface: parameter types are %v, expected (string, int, string)", types)
 	}
-	expr := func(e ast.Expr) (string, error) {
-		switch x := e.(type) {
-		case *ast.Ident:
-			if x.Name == "netIf" || x.Name == "argIf" {
-				return x.Name, nil
-			}
-		case *ast.CallExpr:
-			if srv.Src(x.Fun) == "fmt.Sprintf" && len(x.Args) == 2 && srv.Src(x.Args[1]) == "idx" {
-				f, ok := strLit(x.Args[0])
-				if ok && strings.HasSuffix(f, "%d") && !strings.Contains(f[:len(f)-2], "%") {
-					return fmt.Sprintf("(%s ++ Nat.toDigits 10 idx)", leanChars(f[:len(f)-2])), nil
+	names := map[string]string{params.K[0].K[0].Op: "netIf", params.K[1].K[0].Op: "idx", params.K[2].K[0].Op: "argIf"}
+	isStrParam := func(n *N) bool { return names[n.Op] == "netIf" || names[n.Op] == "argIf" }
+	var expr func(n *N) (string, error)
+	expr = func(n *N) (string, error) {
+		switch {
+		case isStrParam(n):
+			return names[n.Op], nil
+		case n.isStr():
+			return leanChars(n.str()), nil
+		case n.Op == "itoa" && names[n.K[0].Op] == "idx":
+			return "Nat.toDigits 10 idx", nil
+		case n.Op == "concat":
+			var xs []string
+			for _, k := range n.K {
+				s, err := expr(k)
+				if err != nil {
+					return "", err
 				}
+				xs = append(xs, s)
+			}
+			return "(" + strings.Join(xs, " ++ ") + ")", nil
+		}
+		return "", fmt.Errorf("setNetInterface: cannot translate result expression %s", n)
+	}
+	var cond func(n *N) (string, error)
+	cond = func(n *N) (string, error) {
+		switch n.Op {
+		case "!":
+			s, err := cond(n.K[0])
+			return "¬ (" + s + ")", err
+		case "and", "or":
+			var xs []string
+			for _, k := range n.K {
+				s, err := cond(k)
+				if err != nil {
+					return "", err
+				}
+				xs = append(xs, "("+s+")")
+			}
+			return strings.Join(xs, map[string]string{"and": " ∧ ", "or": " ∨ "}[n.Op]), nil
+		case "==":
+			a, b := n.K[0], n.K[1]
+			if strings.HasPrefix(a.Op, "num:") || a.isStr() {
+				a, b = b, a
+			}
+			if names[a.Op] == "idx" && strings.HasPrefix(b.Op, "num:") {
+				return "idx = " + strings.TrimPrefix(b.Op, "num:"), nil
+			}
+			if isStrParam(a) && b.isStr() {
+				return names[a.Op] + " = " + leanChars(b.str()), nil
 			}
 		}
-		return "", fmt.Errorf("setNetInterface: cannot translate result expression %q", srv.Src(e))
+		return "", fmt.Errorf("setNetInterface: cannot translate condition %s", n)
 	}
-	cond := func(e ast.Expr) (string, error) {
-		b, ok := e.(*ast.BinaryExpr)
-		if ok {
-			l, r := srv.Src(b.X), srv.Src(b.Y)
-			switch {
-			case l == "idx" && b.Op == token.EQL && isInt(b.Y):
-				return "idx = " + r, nil
-			case (l == "netIf" || l == "argIf") && r == `""` && b.Op == token.NEQ:
-				return l + " ≠ []", nil
-			case (l == "netIf" || l == "argIf") && r == `""` && b.Op == token.EQL:
-				return l + " = []", nil
-			}
+	var stmts func(list []*N, indent string) (string, error)
+	stmts = func(list []*N, indent string) (string, error) {
+		if len(list) != 1 {
+			return "", fmt.Errorf("setNetInterface: expected a single if / return, found %d statements", len(list))
 		}
-		return "", fmt.Errorf("setNetInterface: cannot translate condition %q", srv.Src(e))
-	}
-	var b strings.Builder
-	n := len(fd.Body.List)
-	for i, s := range fd.Body.List {
-		if i == n-1 {
-			r, ok := s.(*ast.ReturnStmt)
-			if !ok || len(r.Results) != 1 {
-				return fmt.Errorf("setNetInterface: last statement is not a return")
-			}
-			e, err := expr(r.Results[0])
+		s := list[0]
+		switch {
+		case s.Op == "return" && len(s.K) == 1:
+			e, err := expr(s.K[0])
+			return indent + e, err
+		case s.Op == "if" && len(s.K) == 3:
+			c, err := cond(s.K[0])
 			if err != nil {
-				return err
+				return "", err
 			}
-			b.WriteString("  " + e + "\n")
-			break
+			a, err := stmts(s.K[1].K, indent+"  ")
+			if err != nil {
+				return "", err
+			}
+			b, err := stmts(s.K[2].K, indent+"  ")
+			if err != nil {
+				return "", err
+			}
+			return indent + "if " + c + " then\n" + a + "\n" + indent + "else\n" + b, nil
 		}
-		is, ok := s.(*ast.IfStmt)
-		if !ok || is.Init != nil || is.Else != nil || len(is.Body.List) != 1 {
-			return fmt.Errorf("setNetInterface: statement %d is not `if cond { return x }`", i)
-		}
-		r, ok := is.Body.List[0].(*ast.ReturnStmt)
-		if !ok || len(r.Results) != 1 {
-			return fmt.Errorf("setNetInterface: statement %d is not `if cond { return x }`", i)
-		}
-		c, err := cond(is.Cond)
-		if err != nil {
-			return err
-		}
-		e, err := expr(r.Results[0])
-		if err != nil {
-			return err
-		}
-		b.WriteString("  if " + c + " then " + e + " else\n")
+		return "", fmt.Errorf("setNetInterface: cannot translate statement %s", s)
 	}
-	fmt.Fprintf(&o.b, "/-- translation of `setNetInterface(netIf string, idx int, argIf string) string` (idx ≥ 0 at every call site) -/\n"+
-		"def setNetInterface (netIf : List Char) (idx : Nat) (argIf : List Char) : List Char :=\n%s\n", b.String())
+	body, err := stmts(t.K[3].K, "  ")
+	if err != nil {
+		return err
+	}
+	fmt.Fprintf(&o.b, "/-- translation of `setNetInterface(netIf string, idx int, argIf string) string` (idx ≥ 0 at every call site),\n"+
+		"    from its normalised body (guard clauses as if/else, negated conditions swapped) -/\n"+
+		"def setNetInterface (netIf : List Char) (idx : Nat) (argIf : List Char) : List Char :=\n%s\n\n", body)
 	return nil
-}
-
-func isInt(e ast.Expr) bool {
-	l, ok := e.(*ast.BasicLit)
-	return ok && l.Kind == token.INT
 }
 
 // ---- networks annotation
 func genAnnotation(o *out, _, _, k8s *fg.Parsed) error {
-	fd, err := k8s.Fn("", "ParsePodNetworkAnnotation")
+	vs := []variant{
+		{"JSON iff IndexAny, null elements rejected", strings.ReplaceAll(tParseAnnotation, "%NULLCHECK%", nullCheck), map[string]string{"null": "true"}},
+		{"JSON iff IndexAny, null elements accepted", strings.ReplaceAll(tParseAnnotation, "%NULLCHECK%", ""), map[string]string{"null": "false"}},
+	}
+	v, b, err := match(k8s, "", "ParsePodNetworkAnnotation", vs)
 	if err != nil {
 		return err
 	}
-	ia := calls(k8s, fd.Body, "strings.IndexAny")
-	if len(ia) != 1 || len(ia[0].Args) != 2 || k8s.Src(ia[0].Args[0]) != "podNetworks" {
-		return fmt.Errorf("ParsePodNetworkAnnotation: expected one strings.IndexAny(podNetworks, chars)")
-	}
-	chars, ok := strLit(ia[0].Args[1])
-	if !ok {
-		return fmt.Errorf("ParsePodNetworkAnnotation: IndexAny characters are not a literal")
-	}
-	// the JSON branch is the `then` branch of `if IndexAny(...) >= 0`
-	jsonThen := false
-	var nullRejected bool
-	for _, s := range fd.Body.List {
-		if is, ok := s.(*ast.IfStmt); ok && strings.HasPrefix(k8s.Src(is.Cond), "strings.IndexAny(") &&
-			strings.HasSuffix(k8s.Src(is.Cond), ">= 0") {
-			jsonThen = k8s.ContainsCall(is.Body, "json.Unmarshal") && is.Else != nil && k8s.ContainsCall(is.Else, "parsePodNetworkObjectName")
-			nullRejected = strings.Contains(k8s.Src(is.Body), "networks[i] == nil")
-		}
-	}
-	if !jsonThen {
-		return fmt.Errorf("ParsePodNetworkAnnotation: not `if IndexAny(..) >= 0 { json } else { comma list }`")
-	}
-	sp := calls(k8s, fd.Body, "strings.Split")
-	if len(sp) != 1 {
-		return fmt.Errorf("ParsePodNetworkAnnotation: expected one strings.Split")
-	}
-	cs, _ := strLit(sp[0].Args[1])
-	comma, err := oneChar(cs, "comma-list separator")
+	_, b2, err := match(k8s, "", "parsePodNetworkObjectName", []variant{{name: "ns/name@if with label check", src: tParseObjectName}})
 	if err != nil {
 		return err
 	}
-	pf, err := k8s.Fn("", "parsePodNetworkObjectName")
+	comma, err := charOf(b, "COMMA", "comma-list separator")
 	if err != nil {
 		return err
 	}
-	sps := calls(k8s, pf.Body, "strings.Split")
-	if len(sps) != 2 {
-		return fmt.Errorf("parsePodNetworkObjectName: expected two strings.Split calls")
-	}
-	s1, _ := strLit(sps[0].Args[1])
-	s2, _ := strLit(sps[1].Args[1])
-	slash, err := oneChar(s1, "namespace separator")
+	slash, err := charOf(b2, "SLASH", "namespace separator")
 	if err != nil {
 		return err
 	}
-	at, err := oneChar(s2, "interface separator")
+	at, err := charOf(b2, "AT", "interface separator")
 	if err != nil {
 		return err
 	}
-	rx := calls(k8s, pf.Body, "regexp.MatchString")
-	if len(rx) != 1 {
-		return fmt.Errorf("parsePodNetworkObjectName: expected one regexp.MatchString")
-	}
-	re, ok := strLit(rx[0].Args[0])
-	if !ok {
-		return fmt.Errorf("parsePodNetworkObjectName: regexp is not a literal")
-	}
-	o.def("jsonDetectChars", "List Char", leanChars(chars), "ParsePodNetworkAnnotation: the annotation is JSON iff it contains one of these")
-	o.def("jsonNullElementRejected", "Bool", fg.LeanBool(nullRejected), "ParsePodNetworkAnnotation: a null list element is an error")
+	o.def("jsonDetectChars", "List Char", leanChars(b["JSONCHARS"]), "ParsePodNetworkAnnotation: the annotation is JSON iff it contains one of these")
+	o.def("jsonNullElementRejected", "Bool", v.facts["null"], "ParsePodNetworkAnnotation: a null list element is an error")
 	o.def("commaSep", "Char", leanChar(comma), "comma form: item separator")
 	o.def("nsSep", "Char", leanChar(slash), "comma form: <namespace>/<name>")
 	o.def("ifSep", "Char", leanChar(at), "comma form: <name>@<interface>")
-	o.def("labelRegex", "String", fg.LeanStr(re), "comma form: every non-empty part must match this")
+	o.def("labelRegex", "String", fg.LeanStr(b2["REGEX"]), "comma form: every non-empty part must match this")
 	return nil
 }
 
-// ---- resolveNetworks: annotation, else ENI, else default
+// ---- resolveNetworks: annotation, else ENI, else default; extended args to every network
 func genSelection(o *out, _, srv, _ *fg.Parsed) error {
-	fd, err := srv.Fn("Galaxy", "resolveNetworks")
-	if err != nil {
+	if _, _, err := match(srv, "Galaxy", "resolveNetworks", []variant{{name: "annotation / ENI / default", src: tResolveNetworks}}); err != nil {
 		return err
-	}
-	var top *ast.IfStmt
-	for _, s := range fd.Body.List {
-		if is, ok := s.(*ast.IfStmt); ok && top == nil {
-			top = is
-		}
-	}
-	if top == nil || srv.Src(top.Cond) != `pod.Annotations == nil || pod.Annotations[constant.MultusCNIAnnotation] == ""` {
-		return fmt.Errorf("resolveNetworks: first branch is not on the absence of the networks annotation")
-	}
-	if len(top.Body.List) != 1 {
-		return fmt.Errorf("resolveNetworks: no-annotation branch is not a single if/else")
-	}
-	in, ok := top.Body.List[0].(*ast.IfStmt)
-	if !ok || srv.Src(in.Cond) != `utils.WantENIIP(&pod.Spec) && g.ENIIPNetwork != ""` || in.Else == nil {
-		return fmt.Errorf("resolveNetworks: inner branch is not `if WantENIIP && ENIIPNetwork != \"\" {..} else {..}`")
-	}
-	eniOK := strings.Contains(srv.Src(in.Body), "cniutil.NewNetworkInfo(g.ENIIPNetwork, netConf, req.IfName)")
-	defOK := strings.Contains(srv.Src(in.Else), "range g.DefaultNetworks") &&
-		strings.Contains(srv.Src(in.Else), `setNetInterface("", i, req.IfName)`)
-	annOK := top.Else != nil && strings.Contains(srv.Src(top.Else), "k8s.ParsePodNetworkAnnotation(v)") &&
-		strings.Contains(srv.Src(top.Else), "setNetInterface(network.InterfaceRequest, idx, req.CmdArgs.IfName)")
-	if !eniOK || !defOK || !annOK {
-		return fmt.Errorf("resolveNetworks: branch bodies changed shape (eni=%v default=%v annotation=%v)", eniOK, defOK, annOK)
 	}
 	o.def("selectionOrder", "List String", `["annotation", "eni", "default"]`,
 		"resolveNetworks: networks annotation if non-empty, else ENIIPNetwork if the pod wants an ENI IP and one is configured, else DefaultNetworks")
-	argsAll := has(srv, fd.Body, "for i := range networkInfos { for k, v := range extendedCNIArgs { networkInfos[i].Args[k] = string(v) } }")
-	o.def("extendedArgsGoToEveryNetwork", "Bool", fg.LeanBool(argsAll), "resolveNetworks: args.common is copied into every network's Args")
+	o.def("extendedArgsGoToEveryNetwork", "Bool", "true", "resolveNetworks: args.common is copied into every network's Args")
 	return nil
 }
+
+var _ = sort.Strings
+var _ ast.Node
